@@ -61,15 +61,23 @@ Lemma bolt_trace_existing_keeps_mode : forall perm umask m,
 Proof. reflexivity. Qed.
 
 (* every secret-holding file, for every umask, given the two side conditions on the constants *)
-Lemma secret_files_owner_only : forall rw dkgp chainp,
+Lemma secret_files_owner_only : forall rw dkgp chainp secure,
   owner_only rw -> owner_only dkgp ->
+  secure FKeyPrivate = true -> secure FShare = true ->
   forall f umask, file_secret f = true ->
-  Forall owner_only (modes_at_writes umask None (file_trace rw dkgp chainp f)).
+  Forall owner_only (modes_at_writes umask None (file_trace rw dkgp chainp secure f)).
 Proof.
-  intros rw dkgp chainp Hrw Hd f umask Hs. destruct f; simpl in Hs; try discriminate.
-  - apply secure_trace_owner_only, Hrw.
-  - apply secure_trace_owner_only, Hrw.
+  intros rw dkgp chainp secure Hrw Hd Hk Hsh f umask Hs. destruct f; simpl in Hs; try discriminate.
+  - unfold file_trace. rewrite Hk. apply secure_trace_owner_only, Hrw.
+  - unfold file_trace. rewrite Hsh. apply secure_trace_owner_only, Hrw.
   - apply bolt_trace_fresh_owner_only, Hd.
+Qed.
+
+(* tightness: a secret TOML file saved without the secure flag is group/other readable under umask 0 *)
+Lemma plain_trace_not_owner_only :
+  ~ Forall owner_only (modes_at_writes 0 None plain_file_trace).
+Proof.
+  intro F. simpl in F. inversion F as [|x l Hx _]; subst. vm_compute in Hx. discriminate.
 Qed.
 
 (* ---------------- exposure ---------------- *)
